@@ -408,6 +408,40 @@ def check_c13() -> int:
             rep.violation({"saveRes": c["saveRes"], "loadRes": c["loadRes"], "legacyRes": c["loadLegacyRes"], "prior": c.get("prior_bytes", -1) >= 0},
                           {"kind": "persist-roundtrip", "case": c},
                           f"persistence round trip: {why}; registry {json.dumps(c['reg'])[:300]} origin {json.dumps(c['origin'])[:300]}")
+        # scale: the largest registry the id range allows (254 nodes x 24 children, every text 25 characters - about
+        # 1.4 MB of JSON).  Too large a value for TLC's JSON module to be worth it: this one case is compared here.
+        big = [[nid, {"type": 17, "ver": "2.3.2", "bat": nid % 101, "sn": ("sketch %03d " % nid).ljust(25, "x"), "sv": "1.0.%d" % nid, "hb": nid,
+                      "sl": bool(nid % 2), "rb": False,
+                      "ch": [[c, {"type": 6, "desc": ("child %02d of %03d" % (c, nid)).ljust(25, "y"), "vals": [[0, ("v%03d-%02d" % (nid, c)).ljust(25, "z")]]}]
+                             for c in range(24)]}] for nid in range(1, 255)]
+        bloop = asyncio.new_event_loop()
+        bdir = tempfile.mkdtemp(prefix="verif-big-")
+        try:
+            gw = _new_gateway(os.path.join(bdir, "unused.json"))
+            gwdriver.build_registry(gw, big)
+            want = proj(gw)["nodes"]
+            from aiomysensors.persistence import Persistence
+            bpath = os.path.join(bdir, "big.json")
+            outcome = "ok"
+            try:
+                bloop.run_until_complete(asyncio.wait_for(Persistence(gw.nodes, bpath).save(), 120))
+                status, got = _load(bloop, bpath, via_context=False)
+                if status != "ok":
+                    outcome = "load of the saved file: " + status
+                elif got != want:
+                    outcome = "the loaded registry differs from the saved one"
+            except BaseException as err:  # noqa: BLE001
+                outcome = "save failed: " + type(err).__name__
+            rep.cov["largest_registry"] = {"nodes": 254, "children_per_node": 24, "file_bytes": os.path.getsize(bpath) if os.path.exists(bpath) else -1,
+                                           "outcome": outcome}
+            rep.add_traces(1)
+            if outcome != "ok":
+                rep.violation({"kind": "largest-registry", "outcome": outcome.split(":")[0]},
+                              {"kind": "persist-big"},
+                              f"the largest registry (254 nodes x 24 children, {rep.cov['largest_registry']['file_bytes']} bytes on disk): {outcome}")
+        finally:
+            bloop.close()
+            shutil.rmtree(bdir, ignore_errors=True)
         rep.assumptions += ["integers beyond 2^30 are carried as opaque tokens through TLC", "the legacy form of a registry is produced by the harness (key renames, null for empty sketch name); Persist.tla DenoteLegacy is the oracle for what it means"]
         return rep.finish()
     finally:
@@ -610,6 +644,9 @@ def replay(doc: dict) -> int:
     work = tlc.scratch()
     try:
         tlc.stage(work)
+        if doc["kind"] == "persist-big":
+            print("the largest-registry case is re-run by ./check C13 (it has no input besides the code under test)")
+            return check_c13()
         if doc["kind"] == "persist-load":
             content = bytes.fromhex(c["content_hex"]) if c.get("content_hex") is not None else None
             case = _load_worker(([(c["class"], content, c["file"] if c["class"] == "json" else {"j": "null"})], 0))[0]
